@@ -19,7 +19,7 @@ open ZygoVerif.Core ZygoVerif.VM
 mutual
 def Fc : Expr → Bool
   | .int _ | .bool _ | .str _ | .nilLit | .sym _ => true
-  | .begin_ es => !es.isEmpty && FcList es
+  | .begin_ es => FcList es
   | .def_ x e => okBinder x && Fc e
   | .set_ x e => okBinder x && Fc e
   | .cond arms d => FcArms arms && Fc d
@@ -139,9 +139,12 @@ theorem compile_total_Fc : ∀ (e : Expr), Fc e = true → ∀ isFn c gs, c.func
   | .sym x, _, isFn, c, gs, hfn => ⟨_, _, by rw [compile]; rfl, by simp⟩
   | .begin_ es, he, isFn, c, gs, hfn => by
     rw [Fc] at he
-    simp only [Bool.and_eq_true, Bool.not_eq_true', List.isEmpty_eq_false_iff] at he
-    rw [compile]
-    exact compileBegin_total_Fc es he.1 he.2 isFn c gs hfn
+    cases es with
+    | nil => exact ⟨[.push .nil], c.tail, by rw [compile]; rfl, by simp⟩   -- (begin) yields nil (fix C04-02)
+    | cons e0 es0 =>
+      rw [compile]
+      · exact compileBegin_total_Fc (e0 :: es0) (by simp) he isFn c gs hfn
+      · intro hh; cases hh
   | .def_ x e, he, isFn, c, gs, hfn => by
     rw [Fc] at he
     simp only [Bool.and_eq_true] at he
@@ -197,9 +200,9 @@ theorem compile_total_Fc : ∀ (e : Expr), Fc e = true → ∀ isFn c gs, c.func
     rw [Fc] at he
     simp only [Bool.and_eq_true, Bool.not_eq_true', List.isEmpty_eq_false_iff] at he
     obtain ⟨⟨⟨_, hbody⟩, hbs⟩, hbl⟩ := he
-    obtain ⟨rhs, t1, h1⟩ := compileBinds_total_Fc bs hbs isFn { c with scopes := c.scopes + 1 } seq gs hfn
-    obtain ⟨b, t2, h2, _⟩ := compileBegin_total_Fc body hbody hbl isFn
-      { tail := t1, scopes := c.scopes + 1, funcname := c.funcname, known := c.known } gs hfn
+    -- since fix C04-08 the initialisers are compiled with the tail flag off, the body with the form's own flag
+    obtain ⟨rhs, t1, h1⟩ := compileBinds_total_Fc bs hbs isFn { c with scopes := c.scopes + 1, tail := false } seq gs hfn
+    obtain ⟨b, t2, h2, _⟩ := compileBegin_total_Fc body hbody hbl isFn { c with scopes := c.scopes + 1 } gs hfn
     refine ⟨[.addScope] ++ rhs ++ (if seq then [] else (bs.map (fun p => Instr.popStackPutEnv p.1)).reverse)
       ++ b ++ [.removeScope], t2, ?_, by simp⟩
     rw [compile]
@@ -219,8 +222,8 @@ theorem compile_total_Fc : ∀ (e : Expr), Fc e = true → ∀ isFn c gs, c.func
     | _ => simp [Fc] at he
   | .arr es, he, isFn, c, gs, hfn => by
     rw [Fc] at he
-    obtain ⟨code, t, h1⟩ := compileAll_total_Fc es he isFn c gs hfn
-    refine ⟨code ++ [.callArr es.length], t, ?_, by simp⟩
+    obtain ⟨code, t, h1⟩ := compileAll_total_Fc es he isFn { c with tail := false } gs hfn
+    refine ⟨code ++ [.callArr es.length], c.tail, ?_, by simp⟩
     rw [compile]
     simp only [g_bind_ok, g_pure_ok]
     exact ⟨_, _, h1, rfl⟩
@@ -318,7 +321,7 @@ theorem compileArms_total_Fc : ∀ (arms : List (Expr × Expr)), FcArms arms = t
   | (p, b) :: arms, he, isFn, c, gs, hfn => by
     rw [FcArms] at he
     simp only [Bool.and_eq_true] at he
-    obtain ⟨pc, _, hp, _⟩ := compile_total_Fc p he.1.1 isFn { c with tail := false, scopes := 0 } gs hfn
+    obtain ⟨pc, _, hp, _⟩ := compile_total_Fc p he.1.1 isFn { c with tail := false } gs hfn
     obtain ⟨bc, _, hb, _⟩ := compile_total_Fc b he.1.2 isFn c gs hfn
     obtain ⟨r, hr⟩ := compileArms_total_Fc arms he.2 isFn c gs hfn
     refine ⟨(pc, bc) :: r, ?_⟩
@@ -1553,10 +1556,21 @@ theorem cclaimE_succ {n : Nat} (hE : CClaimE n) (hB : CClaimB n) (hC : CClaimC n
     exact simC_sym x n hrel hseg
   | begin_ es =>
     rw [Fc] at he
-    simp only [Bool.and_eq_true, Bool.not_eq_true', List.isEmpty_eq_false_iff] at he
-    rw [compile] at hc
-    rw [Ref.eval]
-    exact hB es he.1 he.2 isFn c gs r hc hfn s rs env pre post hrel hseg
+    cases es with
+    | nil =>
+      rw [compile] at hc; simp only [g_pure_ok] at hc; subst hc
+      rw [Ref.eval]
+      cases n with
+      | zero => rw [Ref.evalBegin]; trivial
+      | succ m =>
+        rw [Ref.evalBegin]
+        · exact simC_push _ hrel hseg
+        · omega
+    | cons e0 es0 =>
+      rw [compile] at hc
+      · rw [Ref.eval]
+        exact hB (e0 :: es0) (by simp) he isFn c gs r hc hfn s rs env pre post hrel hseg
+      · intro hh; cases hh
   | def_ x e1 =>
     rw [Fc] at he
     simp only [Bool.and_eq_true] at he
@@ -1669,7 +1683,7 @@ theorem cclaimE_succ {n : Nat} (hE : CClaimE n) (hB : CClaimB n) (hC : CClaimC n
     simp only [g_bind_ok, g_pure_ok] at hc
     obtain ⟨ra, gs1, ha, rfl⟩ := hc
     rw [Ref.eval]
-    have ih := hV es he isFn c gs (ra, gs1) ha hfn s rs env pre ([.callArr es.length] ++ post) hrel
+    have ih := hV es he isFn _ gs (ra, gs1) ha hfn s rs env pre ([.callArr es.length] ++ post) hrel
       (hseg.refocus (by simp))
     cases h1 : Ref.evalList n es env rs with
     | ok vs rs1 =>
